@@ -527,7 +527,7 @@ pub fn run(ctx: &Ctx) -> i32 {
         rep.distinct_extra += 100;
         return report::finish(ctx, rep, ev());
     }
-    let n = ctx.arg_u64("histories").map(|x| x as usize).unwrap_or(ctx.pick(1200usize, 40_000usize));
+    let n = ctx.arg_u64("histories").map(|x| x as usize).unwrap_or(ctx.pick(1200usize, 20_000usize));
     let total = report::parallel(ctx.threads, n, |i, rep| one_history(ctx, &fault_cfg(ctx.seed, i as u64), rep));
     report::finish(ctx, total, ev())
 }
